@@ -14,7 +14,7 @@
    kernel buffer) and TLC checks that each produces the textbook kernel, exactly or up to the pure
    per-output phase the property allows.  A 2-D transform is a pair (row axis, column axis) and the
    pairing of the public arguments (Q tuple, samples_out tuple, shift=(x, y)) is explicit.           *)
-EXTENDS Integers, Sequences, FiniteSets, TLC, Json, GridLib, Cyclo
+EXTENDS Integers, Sequences, FiniteSets, TLC, Json, GridLib, Cyclo, Rat
 
 CONSTANTS Mode,      \* "axis" (laws of one axis), "pairs", "fft", "fixed" (2-D configurations to replay)
           Ns, Ms,    \* input / output lengths
@@ -59,7 +59,7 @@ MdftImpl(c, d) == [k \in 1..c.m |-> [x \in 1..c.n |->
 (* FFT route: pad n -> N = ceil(n Q) with the GridLib offset rule, then the full-period DFT of
    length N between origin-centred grids (ifftshift / fft / fftshift).                           *)
 FftN(n, q)   == CeilMul(n, q)
-FftCfg(n, q) == [n |-> n, m |-> FftN(n, q), q |-> <<FftN(n, q), n>>, s |-> <<0, 1>>]
+FftCfg(n, q) == [n |-> n, m |-> FftN(n, q), q |-> RNorm(FftN(n, q), n), s |-> <<0, 1>>]
 FftAxis(n, q, d) == LET N == FftN(n, q) IN
    [k \in 1..N |-> [x \in 1..n |-> Mod(0 - d * FftRange(N)[x + Off(n, N)] * FftRange(N)[k], N)]]
 
@@ -137,22 +137,26 @@ FftLaw == Mode = "fft" =>
 
 \* C02: band-complete kernels (m = n Q, Q >= 1) are isometries:  E^H E = m I  exactly in Z[zeta_L]
 BandComplete(c) == c.m * c.q[2] = c.n * c.q[1] /\ c.q[1] >= c.q[2]
-PhiRow == Phi(LOf(row))
-GramVec(c, d, x1, x2) == CountVec([k \in 1..c.m |-> Mod(Textbook(c, d)[k][x1] - Textbook(c, d)[k][x2], LOf(c))], LOf(c))
 UnitaryLaw == BandComplete(row) =>
+   LET L   == LOf(row)
+       phi == Phi(L)
+       tb  == Textbook(row, dir) IN
    \A x1, x2 \in 1..row.n :
-      IsConstWith(GramVec(row, dir, x1, x2), LOf(row), IF x1 = x2 THEN row.m ELSE 0, PhiRow)
+      IsConstWith(CountVec([k \in 1..row.m |-> Mod(tb[k][x1] - tb[k][x2], L)], L), L, IF x1 = x2 THEN row.m ELSE 0, phi)
 
 \* C02: the inverse transform with Q' = 1 onto n samples undoes the band-complete forward transform:
 \*      SUM_u zeta^(Einv[x'][u]) zeta^(Efwd[u][x]) = m delta(x, x')   and the norms multiply to 1/m
 BackCfg(c) == [n |-> c.m, m |-> c.n, q |-> <<1, 1>>, s |-> <<0, 1>>]
 RoundTripLaw == (BandComplete(row) /\ row.s[1] = 0) =>
-   LET b == BackCfg(row)
-       Lc == LOf(row) * LOf(b)
-       phi == Phi(Lc) IN
+   LET b   == BackCfg(row)
+       Lc  == LOf(row)                 \* = m * qd, a multiple of LOf(b) = m : common modulus
+       f   == Lc \div LOf(b)
+       phi == Phi(Lc)
+       tf  == Textbook(row, dir)
+       tbk == Textbook(b, 0 - dir) IN
+   /\ LOf(b) * f = Lc
    /\ \A x, xp \in 1..row.n :
-        IsConstWith(CountVec([u \in 1..row.m |->
-                        Mod(Textbook(b, 0 - dir)[xp][u] * LOf(row) + Textbook(row, dir)[u][x] * LOf(b), Lc)], Lc),
+        IsConstWith(CountVec([u \in 1..row.m |-> Mod(tbk[xp][u] * f + tf[u][x], Lc)], Lc),
                     Lc, IF x = xp THEN row.m ELSE 0, phi)
    /\ NormSq(row)[1] * NormSq(b)[1] * row.m * row.m = NormSq(row)[2] * NormSq(b)[2]
 
